@@ -190,6 +190,7 @@ type modSet struct {
 	full   map[string]bool // may be written at references that existed before (explicit assigns)
 	direct map[string]bool // written by the code under execution itself (stores, appends, inlined helpers)
 	all    bool            // unknown effects
+	why    string
 	allocs bool
 	ghosts map[string]bool
 }
@@ -416,14 +417,18 @@ func (x *Exec) calleeModSet(cc *ssa.CallCommon, sets map[*ssa.Function]*modSet) 
 			x.contractMods(con, m)
 			return m
 		}
+		if key == "error.Error" {
+			return m
+		}
 		m.all = true
+		m.why = " (" + key + ")"
 		return m
 	}
 	if callee := cc.StaticCallee(); callee != nil {
 		key := funcKey(callee)
-		if con := x.Lib.Funcs[key]; con != nil && (con.Extern || con.Assigns != nil || con.Pure) {
+		if con := x.Lib.Funcs[key]; con != nil {
 			x.contractMods(con, m)
-			if s, ok := sets[callee]; ok && !con.Extern {
+			if s, ok := sets[callee]; ok && !con.Extern && con.Trusted == "" {
 				// a /repo function: its inferred writes (to fresh memory) still make those heaps change
 				m.union(s)
 			}
@@ -454,6 +459,12 @@ func (x *Exec) calleeModSet(cc *ssa.CallCommon, sets map[*ssa.Function]*modSet) 
 
 func (x *Exec) contractMods(con *FuncContract, m *modSet) {
 	if con.Pure {
+		// no heap effects; ghost bookkeeping (call logs) is still allowed
+		for _, a := range con.Assigns {
+			if len(a) > 6 && a[:6] == "ghost:" {
+				m.ghosts[a[6:]] = true
+			}
+		}
 		return
 	}
 	for _, a := range con.Assigns {
@@ -476,7 +487,11 @@ func ifaceMethodKey(cc *ssa.CallCommon) string {
 	name := t.String()
 	if n, ok := t.(*types.Named); ok {
 		if n.Obj().Pkg() != nil {
-			name = shortPkg(n.Obj().Pkg().Path()) + "." + n.Obj().Name()
+			p := shortPkg(n.Obj().Pkg().Path())
+			if p == n.Obj().Pkg().Path() {
+				p = n.Obj().Pkg().Name()
+			}
+			name = p + "." + n.Obj().Name()
 		} else {
 			name = n.Obj().Name()
 		}
